@@ -550,3 +550,32 @@ Example dtd_default_ampersand :
     (parse_attribute (mk_raw_attr None (lit "a") (lit "cdata") S_none (Some (lit "R&#38;D")) []))
   = Some (Some (lit "R&D")).
 Proof. vm_compute; reflexivity. Qed.
+
+(* clause repdup (compound fields): the model  f , Tag , (Tag|k2) repeated  satisfies the property's own side condition (rep_confined),
+   the mapper keeps capacity, but Tag is produced twice — once outside any choice, once as a member of the
+   repeated choice; the later pipeline merges the two into one list field and k2 stays a field of its own,
+   so f,Tag,k2,Tag,Tag is serialized as f,Tag,Tag,Tag,k2 *)
+Definition w_rep_dup : raw_content :=
+  grp S_seq S_once (el "f" S_once)
+      (grp S_seq S_once (el "Tag" S_once) (grp S_or S_mult (el "Tag" S_once) (el "k2" S_once))).
+
+Theorem dtd_repeated_choice_member_outside :
+  option_map rep_confined (cm_of_raw w_rep_dup) = Some true /\
+  option_map rep_names_unique (cm_of_raw w_rep_dup) = Some false /\
+  option_map (fun dc => map (fun a => (a_name a, a_max a, a_choice a)) (build_content dc no_kwargs [])) (parse_content w_rep_dup)
+  = Some [(lit "f", Some 1%N, None); (lit "Tag", Some 1%N, None);
+          (lit "Tag", Some sys_maxsize, Some [true; true]); (lit "k2", Some sys_maxsize, Some [true; true])].
+Proof. repeat split; vm_compute; reflexivity. Qed.
+
+(* clause dupchoice: ((b|o),(b|c)) — b is a member of two different choices; the mapper keeps capacity 2 for b
+   (dtd_capacity) with two choice ids and no path; MergeAttributes later takes the two for exclusive branches *)
+Definition w_dup_choice : raw_content :=
+  grp S_seq S_once (grp S_or S_once (el "b" S_once) (el "o" S_once)) (grp S_or S_once (el "b" S_once) (el "c" S_once)).
+
+Theorem dtd_same_name_in_two_choices :
+  option_map (fun dc => choice_dups_ok (build_content dc no_kwargs [])) (parse_content w_dup_choice) = Some false /\
+  option_map (fun dc => map (fun a => (a_name a, a_max a, a_choice a)) (build_content dc no_kwargs [])) (parse_content w_dup_choice)
+  = Some [(lit "b", Some 1%N, Some [false]); (lit "o", Some 1%N, Some [false]);
+          (lit "b", Some 1%N, Some [true]); (lit "c", Some 1%N, Some [true])] /\
+  option_map (fun m => maxcount m (lit "b")) (cm_of_raw w_dup_choice) = Some (Some 2).
+Proof. repeat split; vm_compute; reflexivity. Qed.
